@@ -644,7 +644,7 @@ func randCase(r *rand.Rand) Case {
 	cs.Incremental = r.Intn(3) == 0
 	for i := 0; i < nreq; i++ {
 		var p string
-		if r.Intn(4) != 0 {
+		if r.Intn(4) != 0 && len(cs.Routes) > 0 { // (every random pattern of a case may have been unregistrable)
 			base := cs.Routes[r.Intn(len(cs.Routes))].P
 			parts := strings.Split(base, "/")
 			for j, s := range parts {
